@@ -97,7 +97,7 @@ CLAIMED = {
    technique="Coq induction over the first qubit (block recursion) + exact dyadic comparison with the implementation",
    design="6 C13"),
  "C16": dict(
-   text="Proof (all clauses except completeness) + dense exploration. Model/Quadratic.v: Q_{C,L} over components of the commutator graph and commutants, the twirl with exact rational coefficients. Proved for every n: symmetries from different components or different linear symmetries have disjoint Pauli supports and are trace-orthogonal (C16_orthogonal_partial, from trace orthogonality of Pauli matrices); every member of the model's full basis commutes with g(x)1+1(x)g for every member g (C16_invariant: pairing S<->g.S inside a commutator-graph component, letterwise phase identities, linear independence of Pauli matrices). any two members of the basis are trace-orthogonal, each has squared norm |Q|4^n (C16_pairwise_orthogonal, C16_norm); the twirl fixes every symmetry exactly, <Q,twirl m>=<Q,m> for every symmetry (hence idempotent with orthogonal residual), its output commutes with every g(x)1+1(x)g (C16_twirl_fixes/_projects/_idempotent/_invariant). Not proved: completeness (count = commutant dimension; basis theorem of arXiv:2502.16404), so 'onto the whole commutant' rests on it. Per run, on collections of <=2 generators at n<=2 (n=3 thorough): basis as term dictionaries vs the model; invariance under g(x)1+1(x)g, orthogonality and non-vanishing exactly on dense matrices; count vs commutant dimension by a rank computation; twirl coefficients vs exact rationals; linearity, idempotence, fixing the basis, invariant output, orthogonal residual (dense, 1e-9).",
+   text="Proof (every clause, exact arithmetic) + dense exploration. Model/Quadratic.v: Q_{C,L} over components of the commutator graph and commutants, the twirl with exact rational coefficients. Proved for every n: symmetries from different components or different linear symmetries have disjoint Pauli supports and are trace-orthogonal (C16_orthogonal_partial, from trace orthogonality of Pauli matrices); every member of the model's full basis commutes with g(x)1+1(x)g for every member g (C16_invariant: pairing S<->g.S inside a commutator-graph component, letterwise phase identities, linear independence of Pauli matrices). any two members of the basis are trace-orthogonal, each has squared norm |Q|4^n (C16_pairwise_orthogonal, C16_norm); the twirl fixes every symmetry exactly, <Q,twirl m>=<Q,m> for every symmetry (hence idempotent with orthogonal residual), its output commutes with every g(x)1+1(x)g (C16_twirl_fixes/_projects/_idempotent/_invariant). Completeness is proved too (C16_complete: every combination commuting with every g(x)1+1(x)g is fixed by the twirl, coefficient by coefficient, hence a combination of the symmetries; C16_invariant_orthogonal_zero), so the symmetries are a basis of the commutant and their number is its dimension. Per run, on collections of <=2 generators at n<=2 (n=3 thorough): basis as term dictionaries vs the model; invariance under g(x)1+1(x)g, orthogonality and non-vanishing exactly on dense matrices; count vs commutant dimension by a rank computation; twirl coefficients vs exact rationals; linearity, idempotence, fixing the basis, invariant output, orthogonal residual (dense, 1e-9).",
    note="Not proved: invariance, completeness (basis theorem of arXiv:2502.16404; per-input floating-point rank, n<=2) and the projector laws of the twirl (checked densely per input): partial. No axioms.",
    technique="Coq orthogonality proof (disjoint supports) + exact/dense per-input validation of the remaining clauses",
    design="6 C16"),
